@@ -8,7 +8,7 @@ CONSTANTS
   OffsMod = 65536
   Kind = "uriparams"
   Atoms <- AtomsNames
-  MaxLen = 7
+  MaxLen = 6
   Cfgs <- CfgsOf
   Starts = {0, 3}
   FlagSet = {72}
